@@ -91,6 +91,28 @@ func c02Run(c *Ctx) {
 			return
 		}
 		p.promote(0.35)
+		if c.Idx%8 == 3 {
+			// a last node that writes its result under a name that is already taken by a graph input
+			// or a weight (graphs need not be in single-assignment form to load): the name is bound
+			// anew for the rest of the Run, the caller's tensor / the weight stays what it was
+			var cands []string
+			for _, in := range p.Inputs {
+				if t := p.Values[in.Name]; t != nil && t.DT == ref.F32 {
+					cands = append(cands, in.Name)
+				}
+			}
+			for _, it := range p.Inits {
+				if it.T != nil && it.T.DT == ref.F32 {
+					cands = append(cands, it.Name)
+				}
+			}
+			if len(cands) > 0 {
+				x := cands[r.Intn(len(cands))]
+				op := r.PickStr("Tanh", "Relu", "Abs", "Sigmoid")
+				p.Nodes = append(p.Nodes, progNode{G: mon.GNode{Op: op, Name: "rebinds", Inputs: []string{x}, Outputs: []string{x}}, NOut: 1, Mode: CmpTol, Eval: approxEval(func(in []*ref.T) (*ref.Approx, error) { return ref.Unary(op, in[0]) })})
+				c.Count("programs-whose-last-node-rebinds-an-input-or-weight-name", 1)
+			}
+		}
 		d, _ := p.structure()
 		desc = d
 		spec = specFromProgram(p, p.declaredOutputs())
